@@ -30,6 +30,7 @@ import lines_impl
 from translate import lines as tr_lines
 
 PROP = "C16"
+END_INCLUSIVE = [False]  # set from the translated get_line_range_for_node in run()
 IGNORE = c11.IGNORE
 BASE_CFG = {"cli_on": [], "cli_off": ["unused_ignore", "bare_ignore"], "top_off": [], "override": None, "module": "pa.pb"}
 UNUSED_ON_CFG = {"cli_on": ["unused_ignore"], "cli_off": ["bare_ignore"], "top_off": [], "override": None, "module": "pa.pb"}
@@ -234,6 +235,32 @@ RICH_TEMPLATES = [
     ("unused_variable", ["l{k} = lambda *, z: [z for q{k} in range(2)]"], "l{k}(z=1)"),
 ]
 FIX_TEMPLATES += RICH_TEMPLATES
+FIX_TEMPLATES += [
+    ("use_fstrings", ["s{k} = ('e %s' % x +", "'tail')"], "s{k}"),
+    ("unused_variable", ["u{k} = [x,", "y]"], "x"),
+]
+# fixes inside nested function contexts: def in async def, async def in def, class body in a function
+NESTED_TEMPLATES = [
+    ("missing_await", ["async def co{k}():", "    asyncio.sleep(0)", "    return x"], "x"),
+    ("missing_await", ["async def co{k}():", "    def inner{k}():", "        asyncio.sleep(0)", "        return x", "    return inner{k}"], "x"),
+    ("missing_await", ["def gen{k}():", "    async def co{k}():", "        asyncio.sleep(0)", "    return co{k}"], "x"),
+    ("missing_await", ["async def co{k}():", "    class C{k}:", "        def m(self):", "            asyncio.sleep(0)", "    return C{k}"], "x"),
+    ("missing_await", ["def gen{k}():", "    asyncio.sleep(0)", "    return x"], "x"),
+    ("use_fstrings", ["async def co{k}():", "    def inner{k}():", "        return 'n %s' % x", "    return inner{k}"], "x"),
+    ("unused_variable", ["async def co{k}():", "    def inner{k}():", "        u{k} = x", "        return y", "    return inner{k}"], "x"),
+    ("too_many_positional_args", ["async def co{k}():", "    return [callee(1, 2, 3, 4, 5, 6, 7, 8, 9, x, i) for i in range(2)]"], "x"),
+]
+# shapes reported to violate the property on the unchanged tree (each is a known finding with a guard, or has a fix proposal)
+REPORTED_TEMPLATES = [
+    ("use_fstrings", ["s{k} = \'\'\'a %s", "b\'\'\' % x"], "s{k}"),                      # (1) last line of a multi-line string
+    ("use_fstrings", ["if y: s{k} = 'a %s' % x", "else: s{k} = ''"], "s{k}"),        # (2) one-line compound statement
+    ("use_fstrings", ["z{k} = 1; s{k} = 'a %s' % x"], "s{k}, z{k}"),                 # (2) semicolon
+    ("use_fstrings", ["s{k} = 'a %s\\n\\n' % x"], "s{k}"),                          # (3) trailing newlines
+    ("use_fstrings", ["s{k} = 'a %.0s' % x"], "s{k}"),                                 # (4) zero precision
+    ("too_many_positional_args", ["t{k} = posonly(1, 2, 3, 4, 5, 6, 7, 8, 9, x, y)"], "t{k}"),  # (5) positional-only
+    ("missing_f", ["s{k} = f'{{{{x}}}} {{y}}'"], "s{k}"),                              # (6) inside an f-string
+]
+FIX_TEMPLATES += NESTED_TEMPLATES + REPORTED_TEMPLATES
 # the replacement attached to unused_ignore reports (remove the comment line / strip the comment)
 FIX_TEMPLATES += [
     ("unused_ignore", ["# static analysis: ignore[bad_unpack]", "print(x)"], "x"),
@@ -246,14 +273,14 @@ FIX_TEMPLATES += [
 ]
 UNUSED_FIX_CFG = {"cli_on": ["unused_ignore"], "cli_off": ["bare_ignore"], "top_off": [], "override": None, "module": "pa.pb"}
 
-FIX_CFG = {"cli_on": ["use_fstrings", "missing_f", "too_many_positional_args"], "cli_off": ["unused_ignore", "bare_ignore"],
+FIX_CFG = {"cli_on": ["use_fstrings", "missing_f", "too_many_positional_args", "missing_await"], "cli_off": ["unused_ignore", "bare_ignore"],
            "top_off": [], "override": None, "module": "pa.pb"}
 
 
 def gen_fix_program(rng, k, forced=None):
     code, body, ret = forced or rng.choice(FIX_TEMPLATES)
     ind = rng.choice([4, 4, 8])
-    lines = ["import os"] + list(CALLEE)
+    lines = ["import os", "import asyncio"] + list(CALLEE) + ["def posonly(a, b, c, d, e, f, g, h, i, j, k, /):", "    return (a, k)"]
     if rng.random() < 0.3:
         lines.insert(0, "# a leading comment")
     lines.append(f"def target(x, y):")
@@ -441,6 +468,36 @@ def removal_facts(text, applied):
     return None
 
 
+def reported_shape_finding(code, text, ap, first_diag, problems):
+    """Decidable guards of the known findings about node replacements (harness level: outside the Coq model)."""
+    if not ap or not ap["del"] or not _parses(text):
+        return None
+    tree = ast.parse(text)
+    lo, hi = min(ap["del"]), max(ap["del"])
+    by_line = collections.Counter(st.lineno for st in ast.walk(tree) if isinstance(st, ast.stmt) and lo <= st.lineno <= hi)
+    if any(n >= 2 for n in by_line.values()):
+        return "C16-shared-physical-line"  # `if c: stmt`, `a; b`: another statement starts on a line of the replaced one
+    line, col = (first_diag[1], first_diag[2]) if first_diag else (None, None)
+    if code == "use_fstrings":
+        for n in ast.walk(tree):
+            if isinstance(n, ast.BinOp) and isinstance(n.op, ast.Mod) and n.lineno == line and n.col_offset == col and isinstance(n.left, ast.Constant) and isinstance(n.left.value, str):
+                import re as _re
+                if _re.search(r"%\.0[sd]", n.left.value):
+                    return "C16-fstring-zero-precision"
+                if "\n\n" in n.left.value:
+                    return "C16-fstring-consecutive-newlines"
+    if code == "too_many_positional_args":
+        posonly = {d.name for d in ast.walk(tree) if isinstance(d, ast.FunctionDef) and d.args.posonlyargs}
+        for n in ast.walk(tree):
+            if isinstance(n, ast.Call) and n.lineno == line and n.col_offset == col and isinstance(n.func, ast.Name) and n.func.id in posonly:
+                return "C16-positional-only-as-keyword"
+    if code == "missing_f":
+        for n in ast.walk(tree):
+            if isinstance(n, ast.JoinedStr) and n.lineno == line and n.col_offset <= col <= (n.end_col_offset or 0):
+                return "C16-missing-f-inside-fstring"
+    return None
+
+
 def fix_job(job):
     """Apply the proposed replacement, re-check, repeat (one replacement per run) up to the fixpoint.
     -> {"steps": [{"text", "out", "applied", "new"}], "final_out", "error"}"""
@@ -470,9 +527,9 @@ def fix_job(job):
 
 def _parses(t):
     try:
-        ast.parse(t)
+        compile(t, "<c16>", "exec")  # also catches what only the compiler rejects (`await` outside async def)
         return True
-    except SyntaxError:
+    except (SyntaxError, ValueError):
         return False
 
 
@@ -517,6 +574,11 @@ def run(tier: str, replay: str | None = None):
             exe = lib.ocaml_build("c16", "theories/Extract/ExtractC16.v", "c16_driver.ml")
         except RuntimeError as ex:
             rep.violation({"kind": "broken-obligation", "theorem": "extraction of the C16 model", "detail": str(ex)[-1500:]}, no_failing_input=True)
+    try:
+        from translate import astcopy as _ac
+        END_INCLUSIVE[0] = _ac.range_end_inclusive(str(lib.REPO))
+    except Exception:
+        pass
     names = lines_impl.code_names()
     static_names = tr_lines.read_codes(str(lib.REPO))[1]
     code_idx = {n: i for i, n in enumerate(static_names)}
@@ -704,6 +766,8 @@ def run(tier: str, replay: str | None = None):
 
     # ---- part B: node replacements ------------------------------------------
     apply_lines, apply_meta = [], []
+    range_lines, range_meta = [], []
+    pending_range_findings = []  # (index into range_meta, finding id, violation payload)
     for (tcode, lines), r in zip(fix_cases, res_b):
         if r["error"] and not r["steps"]:
             harness_problems.append(f"fix case {tcode}: {r['error'][:300]}")
@@ -746,10 +810,12 @@ def run(tier: str, replay: str | None = None):
                     out_of_node = ast_change_outside_target(code, text, new, before[0][1], before[0][2])
                     if out_of_node:
                         problems.append("syntax tree changed outside the intended node: " + out_of_node)
-                sm = difflib.SequenceMatcher(a=text.splitlines(), b=new.splitlines(), autojunk=False)
-                blocks = [op for op in sm.get_opcodes() if op[0] != "equal"]
-                if len(blocks) != 1:
-                    problems.append(f"{len(blocks)} separate blocks of lines changed")
+                # every changed line lies inside the deleted range: the lines before and after it are kept
+                if ap is not None and ap["del"]:
+                    ol, nl = text.splitlines(), new.splitlines()
+                    a_, b_ = min(ap["del"]), max(ap["del"])
+                    if nl[: a_ - 1] != ol[: a_ - 1] or (nl[len(nl) - (len(ol) - b_):] if len(ol) > b_ else []) != ol[b_:]:
+                        problems.append("lines outside the replaced range changed")
             # tie of C16_statement_replacement: the replacement deletes one consecutive range of lines
             if ap is not None and ap["del"] and sorted(ap["del"]) != list(range(min(ap["del"]), max(ap["del"]) + 1)):
                 problems.append(f"the replacement deletes a non-consecutive set of lines: {ap['del']}")
@@ -763,6 +829,26 @@ def run(tier: str, replay: str | None = None):
                 enc += [str(len(old_lines))] + [c11.enc_line(l) for l in old_lines]
                 apply_lines.append(" ".join(enc))
                 apply_meta.append((text, ap, new))
+            # tie of C16_replace_node_lines: the deleted lines are get_line_range_for_node of some statement
+            # of the old tree, as the translated function computes it
+            if exe is not None and ap is not None and ap["del"] and code in ("unused_variable", "use_fstrings", "missing_f", "too_many_positional_args") and _parses(text):
+                old_lines = text.splitlines()
+                cands = []
+                for st in ast.walk(ast.parse(text)):
+                    if isinstance(st, ast.stmt):
+                        first = min([st.lineno] + [d.lineno for d in getattr(st, "decorator_list", [])])
+                        last0 = first + 1
+                        for ch in ast.walk(st):
+                            e = getattr(ch, "end_lineno", None)
+                            if e is not None:
+                                last0 = max(last0, e + (1 if END_INCLUSIVE[0] else 0))
+                            elif hasattr(ch, "lineno"):
+                                last0 = max(last0, ch.lineno)
+                        if first == min(ap["del"]):
+                            cands.append((first, last0))
+                cands = sorted(set(cands))
+                range_lines.append([f"R {a} {b} {len(old_lines)} " + " ".join(c11.enc_line(l) for l in old_lines) for a, b in cands])
+                range_meta.append((text, ap["del"], cands))
             if problems:
                 facts = removal_facts(text, ap) if _parses(text) else None
                 fid = None
@@ -786,6 +872,23 @@ def run(tier: str, replay: str | None = None):
                             hist["attributed_" + fid2] += 1
                             rep.known(fid2, known[fid2]["what"])
                             continue
+                fid4 = reported_shape_finding(code, text, ap, before[0] if before else None, problems)
+                if fid4 in known and ap is not None and new == "".join(
+                        [l + "\n" for l in text.splitlines()[: min(ap["del"]) - 1]] + list(ap["add"] or []) + [l + "\n" for l in text.splitlines()[max(ap["del"]):]]):
+                    hist["attributed_" + fid4] += 1
+                    rep.known(fid4, known[fid4]["what"])
+                    break
+                # guard of C16-unindented-continuation-line: the deleted range stops before the last line of the
+                # statement that starts on its first line (and the extracted line_range agrees: checked below)
+                if ap and ap["del"] and any("parse" in p for p in problems) and _parses(text):
+                    first = min(ap["del"])
+                    ends = [st.end_lineno for st in ast.walk(ast.parse(text)) if isinstance(st, ast.stmt)
+                            and min([st.lineno] + [d.lineno for d in getattr(st, "decorator_list", [])]) == first]
+                    fid3 = "C16-unindented-continuation-line"
+                    if ends and max(ap["del"]) < max(ends) and fid3 in known:
+                        pending_range_findings.append((len(range_meta) - 1, fid3, {"kind": "failing-input", "what": f"node replacement ({code}), step {si + 1}",
+                                                      "input": {"code": tcode, "fix_lines": lines}, "problems": problems, "before": text, "observed": new}))
+                        break
                 # faithful model of remove_node: the text is the old one minus exactly the statement's lines
                 predicted = None
                 if facts and facts["exact"]:
@@ -810,6 +913,28 @@ def run(tier: str, replay: str | None = None):
         except RuntimeError as ex:
             rep.violation({"kind": "broken-correspondence", "correspondence": "Gen.ApplyGen.apply_changes vs _apply_changes_to_lines", "detail": str(ex)[-1500:]}, no_failing_input=True)
 
+    range_mismatch = []
+    if exe is not None and range_lines:
+        try:
+            flat = [q for qs in range_lines for q in qs]
+            outs = iter(lib.ocaml_run(exe, flat)) if flat else iter(())
+            for (text, dels, cands), qs in zip(range_meta, range_lines):
+                got = [[int(x) for x in next(outs).split()] for _ in qs]
+                if sorted(dels) not in got:
+                    range_mismatch.append({"text": text, "deleted": dels, "model_ranges": got, "candidates": cands})
+        except RuntimeError as ex:
+            rep.violation({"kind": "broken-correspondence", "correspondence": "Gen.RangeGen.line_range vs get_line_range_for_node", "detail": str(ex)[-1500:]}, no_failing_input=True)
+
+    bad_ranges = {id(m) for m in ()}
+    mismatch_texts = {m["text"] for m in range_mismatch}
+    for idx, fid3, payload in pending_range_findings:
+        agrees = exe is not None and 0 <= idx < len(range_meta) and range_meta[idx][0] not in mismatch_texts
+        if agrees:
+            hist["attributed_" + fid3] += 1
+            rep.known(fid3, known[fid3]["what"])
+        else:
+            failing.append(payload)
+
     # ---- report ------------------------------------------------------------
     for f in failing[:10]:
         f["how_to_run"] = "./check C16 --replay <this file>"
@@ -822,6 +947,9 @@ def run(tier: str, replay: str | None = None):
     if shift_violations and not found_input:
         rep.violation({"kind": "broken-correspondence", "correspondence": "raw stream of the rewritten file = old raw stream moved down with its lines (as multisets)",
                        "input": {"text": shift_violations[0]["text"], "cfg": BASE_CFG}, "detail": shift_violations[0]}, no_failing_input=True)
+    if range_mismatch and not found_input:
+        rep.violation({"kind": "broken-correspondence", "correspondence": "Gen.RangeGen.line_range (extracted) vs analysis_lib.get_line_range_for_node (lines deleted by the applied replacement)",
+                       "input": range_mismatch[0]}, no_failing_input=True)
     if apply_mismatch and not found_input:
         rep.violation({"kind": "broken-correspondence", "correspondence": "Gen.ApplyGen.apply_changes (extracted) vs BaseNodeVisitor._apply_changes_to_lines",
                        "input": apply_mismatch[0]}, no_failing_input=True)
@@ -846,6 +974,8 @@ def run(tier: str, replay: str | None = None):
         correspondence_mismatches=len(corr_mismatch),
         apply_changes_compared=len(apply_meta),
         apply_changes_mismatches=len(apply_mismatch),
+        line_ranges_compared=len(range_meta),
+        line_range_mismatches=len(range_mismatch),
         oracle_failures=len(failing),
         input_distribution=dict(hist),
     )
